@@ -56,6 +56,15 @@ var arrOps = []string{
 	`y := x[0]; y[1] = v`,
 	`y := [x]; y[0][0] = v`,
 	`y := {w: x}; y.w[1] = v`,
+	// the value spread into the parameters of a call
+	`f := func(...z) { z[0] = v; z[1] = v }; f(x...)`,
+	`f := func(p, ...z) { z[0] = v; z[i] = v }; f(x...)`,
+	`f := func(...z) { splice(z, 0, 1, v) }; f(x...)`,
+	`f := func(...z) { return z }; y := f(x...); y[i] = v`,
+	`f := func(p, q, ...z) { z = append(z, v); z[0] = v }; f(x...)`,
+	`y := append([], x...); y[0] = v; y[2][0] = v`,
+	`y := append(x, x...); y[i] = v`,
+	`f := func(...z) { z[0][i] = v }; f([x, x]...)`,
 }
 
 var mapOps = []string{
@@ -72,6 +81,8 @@ var mapOps = []string{
 	`y := x.p; y[0].z = v`,
 	`y := [x]; y[0].p = v`,
 	`y := append([], x); y[0].q = v`,
+	`f := func(...z) { z[0].p = v }; f([x]...)`,
+	`f := func(...z) { z[0] = v }; f(immutable([x, x])...)`,
 }
 
 // expectedX rebuilds the value x was constructed with.
